@@ -28,7 +28,12 @@ ANN = {"s": "int", "b": "str", "e": "float", "z1": "bool", "k2": "Optional[int]"
 DEFAULTS = {"s": "1", "b": "'two'", "e": "3.5", "z1": "True", "k2": "None"}
 DOC_DEFAULTS = {"s": 0, "b": "zero", "e": 0.0, "z1": False, "k2": 0}  # what the docstring claims in 'conflict' mode
 STYLES = ("rest", "numpydoc", "google")
-FORMS = ("function", "self", "cls", "class_init")
+FORMS = ("function", "self", "cls", "class_init", "class_init_nested_before", "class_init_nested_after", "class_init_module")
+# the class + __init__ form in richer surroundings: a nested helper class with its own __init__ before / after the
+# outer __init__; a module (searched by class name) whose earlier class has a name that is a suffix of the wanted one
+HELPER = "    class Helper(object):\n        def __init__(self, key, value=2):\n            self.key = key\n\n"
+SIBLING = ('class K(object):\n    """\n    Another one\n\n    :cvar verbose: the verbose\n    """\n\n'
+           '    def __init__(self, verbose=True):\n        pass\n\n\n')
 
 
 def signatures(max_total):
@@ -59,6 +64,8 @@ def build_cases(tier):
                     for order in orders:
                         for form in FORMS:
                             if tier == "quick" and style != "rest" and form not in ("function", "class_init"):
+                                continue
+                            if form.startswith("class_init_") and tier == "quick" and ann == "alt":
                                 continue
                             cases.append((p, d, q, kwmask, kwargs, ann, style, sub, order, form, 0))
                             # docstring states a (falsy) default that differs from the signature's: documented wins
@@ -138,7 +145,14 @@ def render(case):
         # class + __init__: the class docstring documents the subset (as :cvar / the style's section), __init__ is bare
         cdoc = doc.replace(":param ", ":cvar ") if style == "rest" else doc
         cdoc = "\n".join(ln[4:] if ln.startswith("        ") else ln for ln in cdoc.split("\n"))
-        src = "class K(object):\n%s\n\n    def __init__(self%s):\n        pass\n" % (cdoc, (", " + sig) if sig else "")
+        init = "    def __init__(self%s):\n        pass\n" % ((", " + sig) if sig else "")
+        if form == "class_init_nested_before":
+            init = HELPER + init
+        elif form == "class_init_nested_after":
+            init = init + "\n" + HELPER
+        src = "class %s(object):\n%s\n\n%s" % ("TrainK" if form == "class_init_module" else "K", cdoc, init)
+        if form == "class_init_module":
+            src = SIBLING + src
     return src, exp, documented, doc_types
 
 
@@ -152,6 +166,8 @@ def parse_case(case, src):
     if form in ("self", "cls"):
         fn = [n for n in tree.body[0].body if isinstance(n, ast.FunctionDef)][0]
         return parse.function(fn)
+    if form == "class_init_module":
+        return parse.class_(tree, class_name="TrainK", merge_inner_function="__init__")
     return parse.class_(tree.body[0], merge_inner_function="__init__")
 
 
@@ -161,7 +177,8 @@ def python_view(case, src):
     ns = {"Optional": typing.Optional}
     exec(compile(src, "<c07>", "exec"), ns)
     form = case[9]
-    obj = ns["f"] if form == "function" else (ns["K"].__dict__["f"] if form in ("self", "cls") else ns["K"].__init__)
+    obj = ns["f"] if form == "function" else (ns["K"].__dict__["f"] if form in ("self", "cls") else
+                                             ns["TrainK" if form == "class_init_module" else "K"].__init__)
     if isinstance(obj, classmethod):
         obj = obj.__func__
     sig = inspect.signature(obj)
@@ -269,7 +286,7 @@ class C07(core.Check):
         idx = []
         for i, c in enumerate(sp.cases):
             n = c[0] + c[2] + (1 if c[4] else 0)
-            if n - len(c[7]) >= 2 and c[6] == "rest" and c[9] in ("function", "class_init") and not c[10]:
+            if n - len(c[7]) >= 2 and c[6] == "rest" and c[9] in ("function", "class_init", "class_init_module") and not c[10]:
                 idx.append(i)
         return idx
 
